@@ -23,7 +23,7 @@ from elementpath.exceptions import xpath_error, ElementPathError, ElementPathVal
 from elementpath.namespaces import XSD_ANY_TYPE, XSD_ANY_SIMPLE_TYPE, XSD_ANY_ATOMIC_TYPE
 from elementpath.namespaces import XSD_NAMESPACE, XPATH_MATH_FUNCTIONS_NAMESPACE
 from elementpath.datatypes import AnyAtomicType, AbstractDateTime, AnyURI, \
-    DayTimeDuration, Date, DateTime, DecimalProxy, Duration, Integer, QName, \
+    DayTimeDuration, Date, DateTime, DecimalProxy, Duration, QName, \
     Timezone, UntypedAtomic, AbstractQName
 from elementpath.tdop import Token, MultiLabel
 from elementpath.helpers import ordinal, get_double
@@ -566,39 +566,56 @@ class XPathToken(Token[ta.XPathTokenType]):
             left_values = self._items[0].atomization(context)
             right_values = self._items[1].atomization(context)
 
+        ordering = self.symbol in ('<', '<=', '>', '>=')
         for op1, op2 in product(left_values, right_values):
-            match op1:
-                case str() | AnyURI():
-                    if not isinstance(op2, (str, UntypedAtomic, AnyURI)):
-                        raise TypeError(msg.format(type(op1), type(op2)))
-                case bool():
-                    if isinstance(op2, (str, Integer, AbstractQName, AnyURI)):
-                        raise TypeError(msg.format(type(op1), type(op2)))
-                case Integer():
-                    if isinstance(op2, (str, AbstractQName, AnyURI, bool)):
-                        raise TypeError(msg.format(type(op1), type(op2)))
-                case float():
-                    if isinstance(op2, decimal.Decimal):
-                        yield op1, float(op2)
-                        continue
-                    elif isinstance(op2, (str, AbstractQName, AnyURI, bool)):
-                        raise TypeError(msg.format(type(op1), type(op2)))
-                case decimal.Decimal():
-                    if isinstance(op2, float):
-                        yield float(op1), op2
-                        continue
-                    elif isinstance(op2, (str, AbstractQName, AnyURI, bool)):
-                        raise TypeError(msg.format(type(op1), type(op2)))
-                case AbstractQName():
-                    if not isinstance(op2, (AbstractQName, UntypedAtomic)):
-                        raise TypeError(msg.format(type(op1), type(op2)))
-                case UntypedAtomic():
-                    if isinstance(op2, UntypedAtomic):
-                        # both untyped: compared as xs:string values
-                        yield op1.value, op2.value
-                        continue
+            if isinstance(op1, UntypedAtomic):
+                if isinstance(op2, UntypedAtomic):
+                    # both untyped: compared as xs:string values
+                    yield op1.value, op2.value
+                    continue
+                # the untyped value is cast to the type of the other operand
+                elif not self.is_comparable(op2, op2, ordering):
+                    raise TypeError(msg.format(type(op1), type(op2)))
+            elif isinstance(op2, UntypedAtomic):
+                if not self.is_comparable(op1, op1, ordering):
+                    raise TypeError(msg.format(type(op1), type(op2)))
+            elif not self.is_comparable(op1, op2, ordering):
+                raise TypeError(msg.format(type(op1), type(op2)))
+            elif isinstance(op1, float) and isinstance(op2, decimal.Decimal):
+                yield op1, float(op2)
+                continue
+            elif isinstance(op1, decimal.Decimal) and isinstance(op2, float):
+                yield float(op1), op2
+                continue
 
             yield op1, op2
+
+    @staticmethod
+    def is_comparable(op1: Any, op2: Any, ordering: bool = False) -> bool:
+        """
+        Returns `True` if a value comparison is defined for the two atomic values
+        (that are not xs:untypedAtomic instances), `False` otherwise.
+
+        :param ordering: if `True` checks for an order comparison (lt, le, gt, ge), \
+        otherwise checks for an equality comparison (eq, ne).
+        """
+        if isinstance(op1, bool) or isinstance(op2, bool):
+            return isinstance(op1, bool) and isinstance(op2, bool)
+        elif isinstance(op1, (int, float, decimal.Decimal)):
+            return isinstance(op2, (int, float, decimal.Decimal))
+        elif isinstance(op1, (str, AnyURI)):
+            return isinstance(op2, (str, AnyURI))
+        elif isinstance(op1, AbstractQName):
+            return isinstance(op2, AbstractQName) and not ordering
+        elif isinstance(op1, AbstractDateTime):
+            if not isinstance(op1, type(op2)) and not isinstance(op2, type(op1)):
+                return False
+            return not ordering or not op1.name.startswith('g')
+        elif isinstance(op1, Duration):
+            if not isinstance(op2, Duration):
+                return False
+            return not ordering or type(op1) is type(op2) and type(op1) is not Duration
+        return type(op1) is type(op2)
 
     def get_operands(self, context: ta.ContextType, cls: type[Any] | None = None) -> Any:
         """
@@ -624,7 +641,7 @@ class XPathToken(Token[ta.XPathTokenType]):
 
         if isinstance(op1, AbstractDateTime) and isinstance(op2, AbstractDateTime):
             if context is not None and context.timezone is not None:
-                # set the implicit timezone on copies: the operands may be values owned by the caller
+                # set the implicit timezone on copies: the operands may be owned by the caller
                 if op1.tzinfo is None:
                     op1 = copy(op1)
                     op1.tzinfo = context.timezone
